@@ -1508,6 +1508,7 @@ func runRegistration(c *core.Case, g Reg) {
 		} else {
 			c.Count("duplicate_registration_refused", 1)
 		}
+		refusedLeavesRegistered(c, g, n, key)
 	case "nil", "nilfunc":
 		refused := panics(func() { mux.New("jabber:client", opt(g.Kind, g.Type, n, g.Mode)) })
 		if !refused {
@@ -1522,6 +1523,87 @@ func runRegistration(c *core.Case, g Reg) {
 		} else {
 			c.Count("distinct_registration_accepted", 1)
 		}
+	}
+}
+
+// taggedOpt is an option for the pattern whose handler records tag in *got.
+func taggedOpt(kind, typ string, n xml.Name, tag string, got *[]string) mux.Option {
+	switch kind {
+	case "iq":
+		return mux.IQFunc(stanza.IQType(typ), n, func(stanza.IQ, xmlstream.TokenReadEncoder, *xml.StartElement) error {
+			*got = append(*got, tag)
+			return nil
+		})
+	case "message":
+		return mux.MessageFunc(stanza.MessageType(typ), n, func(stanza.Message, xmlstream.TokenReadEncoder) error {
+			*got = append(*got, tag)
+			return nil
+		})
+	case "presence":
+		return mux.PresenceFunc(stanza.PresenceType(typ), n, func(stanza.Presence, xmlstream.TokenReadEncoder) error {
+			*got = append(*got, tag)
+			return nil
+		})
+	}
+	return mux.HandleFunc(n, func(xmlstream.TokenReadEncoder, *xml.StartElement) error {
+		*got = append(*got, tag)
+		return nil
+	})
+}
+
+// refusedLeavesRegistered: "refused" means that the registration did not take
+// place.  A multiplexer that already has a handler for the pattern is offered
+// the same pattern again (and a nil handler for it), by applying the options to
+// it one at a time the way New does; the panics are recovered, as an
+// application loading optional handlers would, and afterwards the pattern must
+// still lead to the handler that was registered first.
+func refusedLeavesRegistered(c *core.Case, g Reg, n xml.Name, key string) {
+	var got []string
+	var m *mux.ServeMux
+	if c.Guard("first registration", func() { m = mux.New("jabber:client", taggedOpt(g.Kind, g.Type, n, "first", &got)) }) {
+		return
+	}
+	second := taggedOpt(g.Kind, g.Type, n, "second", &got)
+	if !panics(func() { second(m) }) {
+		c.Violate(key+":accepted", "registering %s[%s]{%s}%s on a multiplexer that has the pattern already is not refused", g.Kind, g.Type, g.Space, g.Local)
+		return
+	}
+	panics(func() { opt(g.Kind, g.Type, n, "nil")(m) })
+	panics(func() { opt(g.Kind, g.Type, n, "nilfunc")(m) })
+	found := false
+	if c.Guard("lookup after refused registrations", func() {
+		switch g.Kind {
+		case "iq":
+			var h mux.IQHandler
+			if h, found = m.IQHandler(stanza.IQType(g.Type), n); found {
+				h.HandleIQ(stanza.IQ{}, nil, nil)
+			}
+		case "message":
+			var h mux.MessageHandler
+			if h, found = m.MessageHandler(stanza.MessageType(g.Type), n); found {
+				h.HandleMessage(stanza.Message{}, nil)
+			}
+		case "presence":
+			var h mux.PresenceHandler
+			if h, found = m.PresenceHandler(stanza.PresenceType(g.Type), n); found {
+				h.HandlePresence(stanza.Presence{}, nil)
+			}
+		default:
+			var h xmpp.Handler
+			if h, found = m.Handler(n); found {
+				h.HandleXMPP(nil, nil)
+			}
+		}
+	}) {
+		return
+	}
+	switch {
+	case !found:
+		c.Violate(key+":refused-but-unregistered", "after a refused second registration of %s[%s]{%s}%s the pattern leads to no handler at all", g.Kind, g.Type, g.Space, g.Local)
+	case len(got) != 1 || got[0] != "first":
+		c.Violate(key+":refused-but-replaced", "after a refused second registration (and refused nil registrations) of %s[%s]{%s}%s the pattern leads to %v, not to the handler that was registered first", g.Kind, g.Type, g.Space, g.Local, got)
+	default:
+		c.Count("refused_registration_left_first_handler", 1)
 	}
 }
 
@@ -1637,7 +1719,7 @@ func run(c *core.Case) {
 func Prop() *core.Prop {
 	req := []string{"iq_fallback_reply", "iq_fallback_silent", "empty_stanza_to_wildcard", "replay_after_earlier_handler",
 		"handlers_read_all", "handlers_read_partial", "handlers_read_none", "handler_writes_seen",
-		"duplicate_registration_refused", "nil_registration_refused", "distinct_registration_accepted",
+		"duplicate_registration_refused", "refused_registration_left_first_handler", "nil_registration_refused", "distinct_registration_accepted",
 		"served_sessions", "served_elements", "direct_elements",
 		"direct_memory_reader_elements", "memory_reader_last_token_delivered_with_eof", "reentrant_dispatches",
 		"concurrent_scenarios", "concurrent_dispatches", "concurrent_scenarios_with_overlapping_handlers",
@@ -1666,7 +1748,7 @@ func Prop() *core.Prop {
 		ID:    "C14",
 		Level: core.Exploration,
 		Race:  true,
-		Rule:  "a case is a multiplexer (stanza namespace client/server/any) with a PRNG-drawn pattern set: for one or two (kind,type) pairs a random subset of the nine names over 2 local names x 2 namespaces (4 exact, 2 local-only, 2 namespace-only, the bare wildcard), for a quarter of those pairs also 1-3 payload patterns carrying the stanza's own element name / local name / content namespace (which an empty stanza must not be matched against; 4% of children carry the stanza's own name), up to 5 patterns with the same names under other kinds/types, up to 3 top-level names; 1-3 incoming elements (stanzas of the focus pairs, of other kinds/types, in the other content namespace, non-stanza top-level elements) with 0-4 children in any order, nested children, white space, names outside the universe. Every handler is tagged with its pattern, reads a fixed number of tokens (0-7 or until EOF and beyond) and may write a marker. Each element goes through ServeMux.HandleXMPP on an element-limited reader (and 1 case in 12 also through a served session); the handlers invoked, the tokens each could read and what reached the encoder are compared with a reference lookup written from the statement. Every element is fed twice on fresh multiplexers: from an encoding/xml decoder limited to the element, and from an in-memory token reader that returns its last token together with io.EOF (the form xmlstream.Wrap / stanza.Message.Wrap / MultiReader produce). In 1 case in 5 message/presence focus pairs get a forwarding handler that hands a stanza embedded in a {urn:verif:fwd}forwarded child to the same multiplexer while its own dispatch is in progress (re-entrant dispatch; the embedded stanza is judged by the same reference, and the carrier's later handlers must still see the carrier). 1 case in 8 also dispatches its elements concurrently on one shared multiplexer, one goroutine each, after one ordinary dispatch; the first handler reached for each element waits until the others are inside a handler or done, so the dispatches overlap by construction; invocations are attributed by the id of the stanza value the handler is handed, and the children run under the race detector. 1 case in 4 also registers a duplicate, a nil handler, a nil handler function or a near-duplicate. distinct = (kind, empty/children, pattern-class mask for the first child, steps chosen, read classes, fallback).",
+		Rule:  "a case is a multiplexer (stanza namespace client/server/any) with a PRNG-drawn pattern set: for one or two (kind,type) pairs a random subset of the nine names over 2 local names x 2 namespaces (4 exact, 2 local-only, 2 namespace-only, the bare wildcard), for a quarter of those pairs also 1-3 payload patterns carrying the stanza's own element name / local name / content namespace (which an empty stanza must not be matched against; 4% of children carry the stanza's own name), up to 5 patterns with the same names under other kinds/types, up to 3 top-level names; 1-3 incoming elements (stanzas of the focus pairs, of other kinds/types, in the other content namespace, non-stanza top-level elements) with 0-4 children in any order, nested children, white space, names outside the universe. Every handler is tagged with its pattern, reads a fixed number of tokens (0-7 or until EOF and beyond) and may write a marker. Each element goes through ServeMux.HandleXMPP on an element-limited reader (and 1 case in 12 also through a served session); the handlers invoked, the tokens each could read and what reached the encoder are compared with a reference lookup written from the statement. Every element is fed twice on fresh multiplexers: from an encoding/xml decoder limited to the element, and from an in-memory token reader that returns its last token together with io.EOF (the form xmlstream.Wrap / stanza.Message.Wrap / MultiReader produce). In 1 case in 5 message/presence focus pairs get a forwarding handler that hands a stanza embedded in a {urn:verif:fwd}forwarded child to the same multiplexer while its own dispatch is in progress (re-entrant dispatch; the embedded stanza is judged by the same reference, and the carrier's later handlers must still see the carrier). 1 case in 8 also dispatches its elements concurrently on one shared multiplexer, one goroutine each, after one ordinary dispatch; the first handler reached for each element waits until the others are inside a handler or done, so the dispatches overlap by construction; invocations are attributed by the id of the stanza value the handler is handed, and the children run under the race detector. 1 case in 4 also registers a duplicate, a nil handler, a nil handler function or a near-duplicate; a duplicate is also offered to a multiplexer that has the pattern already (options applied one at a time, panics recovered, then a nil handler and a nil function for the same pattern), after which the pattern must still lead to the handler registered first. distinct = (kind, empty/children, pattern-class mask for the first child, steps chosen, read classes, fallback).",
 		Assumptions: []string{
 			"a message without a type attribute, or with a value other than the five defined ones (unknown words, wrong case, white space, empty), is of type normal (RFC 6121 5.2.2, documented on stanza.MessageType); a presence without a type is available; undefined presence and IQ type values are not generated (the library does not normalise them and the statement does not say)",
 			"a message/presence whose only content is character data has no payload and is not empty (its tokens are more than a start and an end element): nothing is due, for text (key shape text-only) and for white space alone (key shape whitespace-only, the library's reading of 'empty': exactly start and end element); an IQ whose payload is preceded by, or whose only content is, character data other than XML white space (space, tab, CR, LF: Unicode spaces such as NBSP, NEL, EM SPACE, U+3000 and zero-width characters are text) is refused: not dispatched, nothing written, an error accepted",
